@@ -20,6 +20,10 @@ ALPHABET = ["OK_KA", "OK_CLOSE", "REFUSE", "CLOSE0", "RESET", "E4XX_LEN", "E5XX_
             "GARBAGE200", "TRUNC_BIG", "RESET_MID"]
 # TRUNC_BIG / RESET_MID: the truncated-body and reset faults striking after several read blocks of the body were delivered
 BIG_PAD = (b"0123456789abcdef" * 200)
+# further behaviours (used in shorter sequences): non-200 replies whose body is binary / carries the JSON-RPC content type / is
+# truncated, and a bodiless status announcing a length
+EXTENDED = ["E4XX_BIN", "E500_JSONCT", "E5XX_TRUNC", "E204_LEN", "E4XX_BIGUTF8"]
+EOF_SPIN_LIMIT = 300
 
 
 def http_resp(status, reason, body, extra=(), length=True, ka=True):
@@ -139,6 +143,9 @@ class PeerSocket(object):
                 self.reset = True
                 raise ConnectionResetError(errno.ECONNRESET, "Connection reset by peer")
             if self.peer_closed:
+                self.eof_reads = getattr(self, "eof_reads", 0) + 1
+                if self.eof_reads > EOF_SPIN_LIMIT:
+                    raise AssertionError("client keeps reading after the end of the stream (%d reads at EOF)" % self.eof_reads)
                 return 0
             raise AssertionError("client would block forever: the scripted peer has nothing to say")
         n = min(len(buf), len(self.out))
@@ -256,6 +263,19 @@ class PeerSocket(object):
             full = http_resp(200, "OK", b'"' + BIG_PAD + b'"')
             self._emit(full[:-1200])
             self.reset_after = True
+        elif b == "E4XX_BIN":
+            self._emit(http_resp(404, "Not Found", b"\xff\xfe<html>\xe9\xe8 not utf-8</html>" + b"\x80" * 40))
+        elif b == "E4XX_BIGUTF8":
+            self._emit(http_resp(403, "Forbidden", b"a" * 1023 + "\u00e9".encode("utf-8") * 700))
+        elif b == "E500_JSONCT":
+            foreign = json.dumps({"jsonrpc": "2.0", "id": (parsed or {}).get("id") if isinstance(parsed, dict) else None, "result": "FOREIGN RESULT"}).encode()
+            self._emit(http_resp(500, "Internal Server Error", foreign, extra=("Content-Type: application/json-rpc",)))
+        elif b == "E5XX_TRUNC":
+            full = http_resp(503, "Service Unavailable", b"<html>" + b"x" * 300 + b"</html>")
+            self._emit(full[:-100])
+            self.peer_closed = True
+        elif b == "E204_LEN":
+            self._emit(b"HTTP/1.1 204 No Content\r\nContent-Length: 25\r\n\r\n")
         elif b == "EMPTY200":
             self._emit(http_resp(200, "OK", b""))
         elif b == "GARBAGE200":
